@@ -74,19 +74,29 @@ def run_case(case: dict) -> dict:
             log({"e": "cmd", "who": op["who"], "code": op["code"]}, raised)
         elif o == "inject":
             data = bytearray([op["code"], op["target"]])
-            net1.notify(0, bytearray(data), 0.0)
-            net2.notify(0, bytearray(data), 0.0)
-            log({"e": "inject", "code": op["code"], "target": op["target"]})
+            try:
+                net1.notify(0, bytearray(data), 0.0)
+                net2.notify(0, bytearray(data), 0.0)
+            except Exception:  # noqa
+                raised = True
+            log({"e": "inject", "code": op["code"], "target": op["target"]}, raised)
         elif o == "set":
             tgt = master if op["who"] == "master" else slave
             try:
                 tgt.state = op["name"]
             except ValueError:
                 raised = True
-            log({"e": "set", "who": op["who"], "name": op["name"]}, raised)
+            except Exception:  # noqa
+                raised = "other"
+            log({"e": "set", "who": op["who"], "name": op["name"]}, raised is True)
+            if raised == "other":
+                ev[-1]["crash"] = True
         elif o == "hb":
-            net1.notify(0x700 + nid, bytearray([op["byte"]]), float(op.get("ts", 1)))
-            log({"e": "hb", "byte": op["byte"]})
+            try:
+                net1.notify(0x700 + nid, bytearray([op["byte"]]), float(op.get("ts", 1)))
+            except Exception:  # noqa
+                raised = True
+            log({"e": "hb", "byte": op["byte"]}, raised)
         elif o == "wait":
             res = {}
 
